@@ -292,8 +292,13 @@ def make_scope_task(engine):
 def tasks(engine):
     engine.loops.invariants[(MOD + '__getitem__', 0)] = getitem_loop
     engine.loops.axioms[(MOD + '__getitem__', 0)] = getitem_axioms
-    return [getitem_task(engine), setitem_task(engine), pushpop_task(engine, 'push_scope', PushScope),
-            pushpop_task(engine, 'pop_scope', PopScope), make_scope_task(engine)]
+    out = []
+    add_task(engine, out, lambda: getitem_task(engine))
+    add_task(engine, out, lambda: setitem_task(engine))
+    add_task(engine, out, lambda: pushpop_task(engine, 'push_scope', PushScope))
+    add_task(engine, out, lambda: pushpop_task(engine, 'pop_scope', PopScope))
+    add_task(engine, out, lambda: make_scope_task(engine))
+    return out
 
 
 def contracts(engine):
